@@ -86,8 +86,18 @@ def logger_gate(chk):
 class OpsMapModel(SetModel):
     """dict[str, Operation] keyed by operation id as functions of the key: has(k), type(k), status(k)"""
 
+    def op_for(self, eng, st, m, k):
+        P = eng.program
+        cd = st.alloc(P.cls("lambda_service.ContextDetails"), {"replay_children": Sym("bool", m["rc"](k)), "result": None, "error": None})
+        return st.alloc(P.cls("lambda_service.Operation"), {"operation_id": Sym("str", k), "operation_type": Sym("enum", m["type"](k), P.cls("lambda_service.OperationType")),
+                                                           "status": Sym("enum", m["status"](k), P.cls("lambda_service.OperationStatus")),
+                                                           "parent_id": mk_opt(m["par_none"](k), Sym("str", m["par"](k))), "context_details": mk_opt(m["cd_none"](k), cd)})
+
     def method(self, eng, st, ref, name, args, kwargs):
         s = st.get(ref)
+        if s["__kind__"] == "opsmap" and name == "get":
+            k = zstr(eng.unopt(st, args[0]))
+            return [("val", mk_opt(z3.Not(z3.Select(s["has"], k)), self.op_for(eng, st, s, k)), st)]
         if s["__kind__"] == "opsmap" and name == "items":
             return [("val", st.alloc("opsitems", {"__kind__": "opsitems", "map": ref}), st)]
         if s["__kind__"] == "zset" and name == "issubset":
@@ -102,8 +112,7 @@ class OpsMapModel(SetModel):
         k = z3.String(fresh_name("key"))
         s2 = st.fork()
         P = eng.program
-        op = s2.alloc(P.cls("lambda_service.Operation"), {"operation_id": Sym("str", k), "operation_type": Sym("enum", m["type"](k), P.cls("lambda_service.OperationType")),
-                                                          "status": Sym("enum", m["status"](k), P.cls("lambda_service.OperationStatus"))})
+        op = self.op_for(eng, s2, m, k)
         for s3 in eng.bind_target(gen.target, (Sym("str", k), op), s2):
             conds = eng.ev_seq(gen.ifs, s3)
             if len(conds) != 1 or conds[0][0] != "val":
@@ -118,6 +127,71 @@ class OpsMapModel(SetModel):
         raise Unsupported("comprehension target")
 
 
+def ops_functions(P):
+    t_cls, s_cls = P.cls("lambda_service.OperationType"), P.cls("lambda_service.OperationStatus")
+    return {"has": z3.Array("ops.has", SS, z3.BoolSort()), "type": z3.Function("ops.type", SS, enum_sort(t_cls)[0]), "status": z3.Function("ops.status", SS, enum_sort(s_cls)[0]),
+            "par_none": z3.Function("ops.parent.none", SS, z3.BoolSort()), "par": z3.Function("ops.parent", SS, SS), "cd_none": z3.Function("ops.ctxdetails.none", SS, z3.BoolSort()),
+            "rc": z3.Function("ops.replay_children", SS, z3.BoolSort())}
+
+
+BA = z3.Function("under_completed_context", SS, z3.BoolSort())  # spec: some ancestor has a recorded outcome that is returned without re-running it
+
+
+def blocked(P, m, p):
+    S = enum_sort(P.cls("lambda_service.OperationStatus"))[1]
+    return z3.And(z3.Or([m["status"](p) == S[x] for x in TERMINAL]), z3.Not(z3.And(z3.Not(m["cd_none"](p)), m["rc"](p))))
+
+
+def step_of(P, m, none, p):
+    """unfolding of BA at a parent link (none?, p)"""
+    return z3.And(z3.Not(none), z3.Length(p) > 0, z3.Select(m["has"], p), z3.Or(blocked(P, m, p), BA(p)))
+
+
+def ba_axiom(P, m):
+    k = z3.String("k!ba")
+    return z3.ForAll([k], BA(k) == step_of(P, m, m["par_none"](k), m["par"](k)))
+
+
+def under_completed_contract(chk):
+    """_is_under_completed_context(op) == BA(op.operation_id): loop invariant over the ancestor walk (termination not proved: parent links are a tree, U/C08)"""
+    from pyvc.loops import LoopContract
+    eng = Engine()
+    model = OpsMapModel()
+    for kname in ("zset", "opsmap", "opsitems"):
+        eng.container_models[kname] = model
+    P = eng.program
+    q = "state.ExecutionState._is_under_completed_context"
+    try:
+        fi = P.func(q)
+    except KeyError:
+        return None  # the helper does not exist on this tree: track_flip is then judged against the statement directly
+    chk.function(q, "verified (loop invariant over the ancestor chain)")
+    st = St()
+    m = ops_functions(P)
+    st.assume(ba_axiom(P, m))
+    opsmap = st.alloc("opsmap", dict(m, __kind__="opsmap"))
+    self_ = st.alloc(P.cls("state.ExecutionState"), {"operations": opsmap})
+    k0 = z3.String("op_key")
+    op = model.op_for(eng, st, m, k0)
+
+    def inv(eng_, s):
+        pid = s.env["parent_id"]
+        none = is_none(pid)
+        p = zstr(strip_opt(pid)) if strip_opt(pid) is not None else z3.StringVal("")
+        return BA(k0) == step_of(P, m, none, p)
+
+    def havoc(eng_, s):
+        s.env["parent_id"] = eng_.sym_of_type("str | None", "parent_id", s)
+        s.env.pop("parent", None)
+    eng.loop_handlers[(q, "while", 0)] = LoopContract(chk, "C17.state.under_completed_context.loop", inv, havoc, desc="the answer for the operation equals the answer for the ancestor about to be examined")
+    for k, v, s in eng.run(fi, [self_, op], st=st):
+        chk.paths += 1
+        got = z3.BoolVal(v) if isinstance(v, bool) else zbool(v)
+        chk.prove("C17.state.under_completed_context", s.pc, z3.And(z3.BoolVal(k == "val"), got == BA(k0)),
+                  desc="_is_under_completed_context(op) is True iff some ancestor context (through the recorded parent links) has a terminal status without ReplayChildren")
+    return eng
+
+
 def track_flip(chk):
     eng = Engine()
     model = OpsMapModel()
@@ -127,10 +201,15 @@ def track_flip(chk):
     st = St()
     chk.function("state.ExecutionState.track_replay")
     rs_cls, t_cls, s_cls = P.cls("state.ReplayStatus"), P.cls("lambda_service.OperationType"), P.cls("lambda_service.OperationStatus")
-    has = z3.Array("ops.has", SS, z3.BoolSort())
-    typ = z3.Function("ops.type", SS, enum_sort(t_cls)[0])
-    stat = z3.Function("ops.status", SS, enum_sort(s_cls)[0])
-    opsmap = st.alloc("opsmap", {"__kind__": "opsmap", "has": has, "type": typ, "status": stat})
+    m = ops_functions(P)
+    has, typ, stat = m["has"], m["type"], m["status"]
+    st.assume(ba_axiom(P, m))
+    opsmap = st.alloc("opsmap", dict(m, __kind__="opsmap"))
+    has_helper = "_is_under_completed_context" in P.cls("state.ExecutionState").methods
+    if has_helper:
+        def helper_summary(eng_, s_, args, kwargs):
+            return [("val", Sym("bool", BA(zstr(s_.get(args[1])["operation_id"]))), s_)]
+        eng.summaries["state.ExecutionState._is_under_completed_context"] = helper_summary
     visited = new_zset(st, name="visited")
     v0 = st.get(visited)["arr"]
     status0 = fresh("enum", "replay_status", rs_cls)
@@ -144,13 +223,13 @@ def track_flip(chk):
         chk.paths += 1
         now = s.get(self_)["_replay_status"].t
         v1 = arr_of(s, visited)
-        all_visited = z3.ForAll([k], z3.Implies(completed(k), z3.Or(z3.Select(v0, k), k == oid.t)))
+        all_visited = z3.ForAll([k], z3.Implies(z3.And(completed(k), z3.Not(BA(k))), z3.Or(z3.Select(v0, k), k == oid.t)))
         goal = z3.And(z3.BoolVal(kk_ == "val"),
                       z3.If(status0.t == R["NEW"], z3.And(now == R["NEW"], v1 == v0),
                             z3.And(now == z3.If(all_visited, R["NEW"], R["REPLAY"]), v1 == z3.Store(v0, oid.t, True))))
         # statement-level version: only records the program will pass again count ("visitable": no ancestor context whose recorded
         # outcome is returned without re-running its body); operations under such a context short-circuit (C01) and are never visited
-        visitable = z3.Function("visitable", SS, z3.BoolSort())
+        visitable = lambda kk: z3.Not(BA(kk))  # noqa: E731  (a record is passed again iff no ancestor short-circuits)
         all_vis = z3.ForAll([k], z3.Implies(z3.And(completed(k), visitable(k)), z3.Or(z3.Select(v0, k), k == oid.t)))
         k2 = z3.String("k!region")
         region = z3.Exists([k2], z3.And(completed(k2), z3.Not(visitable(k2)), z3.Not(z3.Select(v0, k2)), k2 != oid.t))
@@ -164,7 +243,7 @@ def track_flip(chk):
                   regions={"completed_record_under_completed_context": region},
                   sample="track_replay vs the set of completed records that will be visited")
         chk.prove("C17.state.track_flip", s.pc, goal,
-                  desc="track_replay(id): NEW is absorbing; in REPLAY the id is recorded as visited and the status becomes NEW iff every non-EXECUTION record with a terminal status has been visited",
+                  desc="track_replay(id): NEW is absorbing; in REPLAY the id is recorded as visited and the status becomes NEW iff every non-EXECUTION record with a terminal status that is not under a short-circuiting ancestor has been visited",
                   sample="track_replay over an arbitrary operations map and visited set")
 
 
@@ -174,7 +253,9 @@ def run(chk):
     chk.trust("python semantics of the stated subset as encoded by pyvc (DESIGN 2.3)")
     chk.trust("z3 5.1.0")
     logger_gate(chk)
+    under_completed_contract(chk)
     track_flip(chk)
     CC.operation_methods(chk, "C17", want=("C17",))
     X.item_in_child_context(chk, "C17")
+    X.replay_items(chk, "C17")
     wrapper_contracts.wrapper_obligations(chk, "C17", want=("C17",))
